@@ -13,12 +13,16 @@ func init() {
 	registerProperty(&PropertyInfo{
 		ID:    "C07",
 		Title: "Every query returns exactly the documents its meaning selects",
-		Rules: []string{"C07.R1", "C07.R2", "C06.R5"},
+		Rules: []string{"C07.R1", "C07.R2", "C07.R3", "C07.R4", "C06.R5"},
 		Decides: "two structural conditions every correct searcher stack needs (narrow claim): after a DocumentMatch was handed back to the pool, no path uses the same access path or value again (dereference, argument, return, store) before it is overwritten - comparisons with nil or another pointer are not uses; the index-level postings iterators that span several segments return every non-nil posting with its number globalised by the snapshot's offset of the segment it came from, on the Next path and on the Advance path alike; the offsets themselves are cumulative full segment sizes (C06.R5).",
 		NotCovered: "equality of the result set with the query's meaning: conjunction/disjunction/boolean/phrase iterator logic, term expansion, geo arithmetic; aliases of a recycled match held under a different access path.",
 	})
 	registerRule(&RuleInfo{ID: "C07.R1", Title: "a recycled match is never referenced again", Floor: 20, Run: ruleC07R1,
 		Covers: "every DocumentMatchPool.Put call in search/..."})
+	registerRule(&RuleInfo{ID: "C07.R3", Title: "heaps are only modified through container/heap", Floor: 1, Run: ruleC07R3,
+		Covers: "every call of Push/Pop on a type implementing heap.Interface"})
+	registerRule(&RuleInfo{ID: "C07.R4", Title: "a cursor is advanced to a target only when it is strictly behind it", Floor: 4, Run: ruleC07R4,
+		Covers: "every guarded child.Advance(ctx, target) in the searchers"})
 	registerRule(&RuleInfo{ID: "C07.R2", Title: "doc numbers leave the index layer globalised", Floor: 4, Run: ruleC07R2,
 		Covers: "Next/Advance of every multi-segment PostingsIterator in package index"})
 }
@@ -193,6 +197,146 @@ func ruleC07R2(c *Ctx) {
 				continue
 			}
 			c.Check(len(problems) == 0, key, c.Pos(fn.Pos()), "every non-nil posting returned (other than by delegating to the sibling method) had its number set from the segment's offset", uniqJoin(problems))
+		}
+	}
+}
+
+// ruleC07R3: Push/Pop of a heap.Interface implementation append/cut without restoring the heap
+// order; they must only be reached through container/heap.
+func ruleC07R3(c *Ctx) {
+	hi := c.Iface("container/heap", "Interface")
+	n := 0
+	for _, fn := range c.SrcFuncs() {
+		eachInstr(fn, func(in ssa.Instruction) {
+			call, ok := in.(*ssa.Call)
+			if !ok || call.Common().StaticCallee() == nil {
+				return
+			}
+			callee := call.Common().StaticCallee()
+			if callee.Signature.Recv() == nil || callee.Name() != "Push" && callee.Name() != "Pop" {
+				return
+			}
+			rt := callee.Signature.Recv().Type()
+			if !types.Implements(rt, hi) && !types.Implements(types.NewPointer(rt), hi) {
+				return
+			}
+			n++
+			c.Violate(fmt.Sprintf("direct %s call #%d on a heap in %s", callee.Name(), n, FuncName(fn)), c.Pos(in.Pos()),
+				"the heap.Interface method "+callee.Name()+" is called directly instead of container/heap."+callee.Name()+": the element is appended/removed without sifting, the heap order is broken and the smallest document is no longer on top (documents are skipped)")
+		})
+	}
+	// count the legitimate uses so that the rule is not vacuous
+	m := 0
+	for _, fn := range c.SrcFuncs() {
+		eachInstr(fn, func(in ssa.Instruction) {
+			if cc := callOf(in); cc != nil && (isPkgFunc(cc, "container/heap", "Push") || isPkgFunc(cc, "container/heap", "Pop")) {
+				m++
+				c.OK(fmt.Sprintf("container/heap use #%d in %s", m, FuncName(fn)), c.Pos(in.Pos()), "through container/heap")
+			}
+		})
+	}
+}
+
+// ruleC07R4: Advance(target) on a child that already sits on the target moves it past the target.
+func ruleC07R4(c *Ctx) {
+	dm := c.Named(pkgSearch, "DocumentMatch")
+	fNumber := c.Field(pkgSearch, "DocumentMatch", "Number")
+	n := 0
+	for _, fn := range c.FuncsIn(pkgSearcher) {
+		var calls []*ssa.Call
+		eachInstr(fn, func(in ssa.Instruction) {
+			call, ok := in.(*ssa.Call)
+			if !ok || !call.Common().IsInvoke() || call.Common().Method.Name() != "Advance" || len(call.Common().Args) != 2 {
+				return
+			}
+			if _, isParam := call.Common().Args[1].(*ssa.Parameter); isParam {
+				calls = append(calls, call)
+			}
+		})
+		if len(calls) == 0 {
+			continue
+		}
+		isNum := func(v ssa.Value) bool {
+			f, base := loadedField(v)
+			return f == fNumber && namedOf(base.Type()) == dm
+		}
+		for _, call := range calls {
+			target := call.Common().Args[1]
+			// comparisons of a match's Number with the target
+			type cand struct {
+				v  ssa.Value
+				op token.Token
+			}
+			var cands []cand
+			eachInstr(fn, func(x ssa.Instruction) {
+				b, ok := x.(*ssa.BinOp)
+				if !ok {
+					return
+				}
+				switch {
+				case isNum(b.X) && b.Y == target:
+					cands = append(cands, cand{b, b.Op})
+				case isNum(b.Y) && b.X == target:
+					flip := map[token.Token]token.Token{token.LSS: token.GTR, token.GTR: token.LSS, token.LEQ: token.GEQ, token.GEQ: token.LEQ}
+					cands = append(cands, cand{b, flip[b.Op]})
+				default:
+					cmpCall, isCall := b.X.(*ssa.Call)
+					k, isC := constInt(b.Y)
+					if isCall && isC && k == 0 && len(cmpCall.Common().Args) == 2 && cmpCall.Common().StaticCallee() != nil && isNum(cmpCall.Common().Args[0]) && cmpCall.Common().Args[1] == target {
+						cands = append(cands, cand{b, b.Op})
+					}
+				}
+			})
+			var rel []cand
+			for _, cd := range cands {
+				if cd.op == token.LSS || cd.op == token.LEQ || cd.op == token.GTR || cd.op == token.GEQ {
+					rel = append(rel, cd)
+				}
+			}
+			if len(rel) == 0 {
+				continue
+			}
+			n++
+			key := fmt.Sprintf("guarded Advance #%d in %s", n, FuncName(fn))
+			var problems []string
+			ex := &Explorer{Fn: fn, Keep: map[ssa.Value]bool{}}
+			for _, cd := range rel {
+				ex.Keep[cd.v] = true
+			}
+			ex.OnInstr = func(in ssa.Instruction, st *PState) bool {
+				if in != ssa.Instruction(call) {
+					return true
+				}
+				for _, cd := range rel {
+					t := st.Eval(cd.v)
+					if t == TriUnknown {
+						continue
+					}
+					e := cd.op
+					if t == TriNo {
+						neg := map[token.Token]token.Token{token.LSS: token.GEQ, token.GEQ: token.LSS, token.GTR: token.LEQ, token.LEQ: token.GTR}
+						e = neg[cd.op]
+					}
+					if e != token.LSS {
+						problems = append(problems, fmt.Sprintf("on a path the child is advanced although all that is known is cursor.Number %s target (comparison at %s)", e, c.Pos(cd.v.Pos())))
+					}
+				}
+				return true
+			}
+			ex.OnEdge = func(from, to *ssa.BasicBlock, st *PState) {
+				if to.Dominates(from) { // a new loop round compares a new cursor
+					for _, cd := range rel {
+						st.Forget(cd.v)
+					}
+				}
+			}
+			ex.Run()
+			if ex.Exceeded {
+				c.Undecided(key, c.Pos(call.Pos()), "path exploration did not finish")
+				continue
+			}
+			c.Check(len(problems) == 0, key, c.Pos(call.Pos()), "the child is advanced only on paths where cursor.Number < target (or the cursor is unset)",
+				"a child searcher is advanced to the target although its cursor may already sit ON (or beyond) the target: it moves past it and the document is wrongly (not) matched; "+uniqJoin(problems))
 		}
 	}
 }
